@@ -45,6 +45,14 @@ def check_result(kind, got, want):
     return got == want
 
 
+def _vkey(pid, name, res):
+    """Violation key: '<pid>:<op name>[:<failure class>]'; a failure class starting with '!' replaces the op name
+    (used for known-finding regions that span several formats/types)."""
+    if isinstance(res, str):
+        return f'{pid}:{res[1:]}' if res.startswith('!') else f'{pid}:{name}:{res}'
+    return f'{pid}:{name}'
+
+
 def _open(mpc, r, kind):
     from mc import sp
     if kind == 'public':
@@ -81,8 +89,10 @@ def run_sp(pid, job, build, cfgname=None):
                                dict(engine='sp', name=name, vals=list(vals), mode='seeded', script={}, k=k, seed=job['seed']))
                 continue
             judge_sp(part, pid, name, cfg, vals, 'seeded', None, got, want, op.kind, draws, job)
-            maxpts = op.maxpts or (10 if job['tier'] == 'thorough' or op.arity == 1 else 6)
-            for mode, script in sp.mask_scripts(draws, job['tier'], max_points=maxpts, full_product_limit=op.full):
+            maxpts = op.maxpts if op.maxpts is not None else (10 if job['tier'] == 'thorough' or op.arity == 1 else 6)
+            scripts = [('seeded2', None)] if op.full == -1 else \
+                sp.mask_scripts(draws, job['tier'], max_points=maxpts, full_product_limit=op.full)
+            for mode, script in scripts:
                 try:
                     got, d2 = eval_sp(mpc, seam, op, vals, mode, script, job['seed'])
                 except Exception as exc:
@@ -101,7 +111,7 @@ def judge_sp(part, pid, name, cfg, vals, mode, script, got, want, kind, draws, j
     part.outcomes.add(stable_hash((name, repr(got))) & 0xffffff)
     res = check_result(kind, got, want)
     if res is not True and res != 1:
-        key = f'{pid}:{name}' + (f':{res}' if isinstance(res, str) else '')
+        key = _vkey(pid, name, res)
         part.violation(key, f'[{cfg}] {name}{tuple(vals)} = {got!r}, reference gives {want!r} (masks: {mode} {script})',
                        dict(engine='sp', name=name, vals=list(vals), mode=mode, script={str(a): b for a, b in (script or {}).items()},
                             k=job.get('k'), seed=job['seed'], cfg=cfg))
@@ -124,7 +134,7 @@ def replay_sp(pid, case, build):
     want = op.ref(vals)
     res = check_result(op.kind, got, want)
     if res is not True and res != 1:
-        part.violation(f"{pid}:{case['name']}" + (f':{res}' if isinstance(res, str) else ''), f'{case["name"]}{vals} = {got!r}, reference gives {want!r}', case)
+        part.violation(_vkey(pid, case['name'], res), f'{case["name"]}{vals} = {got!r}, reference gives {want!r}', case)
     return part
 
 
@@ -228,7 +238,9 @@ def make_mp_program(build):
             sender = idx % m
             plain = [op.make(v) for v in vals]
             if all(isinstance(a, mpc.SecureObject) for a in plain) and plain and len({type(a) for a in plain}) == 1 \
-                    and not hasattr(type(plain[0]), '_input'):
+                    and not hasattr(type(plain[0]), '_input') and not getattr(type(plain[0]), 'frac_length', 0):
+                # (fixed-point numbers are input one by one: a list input takes the integral flag of element 0
+                #  for all elements, which is C03's business)
                 args = mpc.input(plain, senders=sender)
             else:
                 args = [mpc.input(a, senders=sender) if isinstance(a, mpc.SecureObject) else a for a in plain]
@@ -317,7 +329,7 @@ def run_mp(pid, job, build, base_k=4, batch=24, patterns=('seeded', 'zero', 'max
                 else:
                     res = check_result(op.kind, gots[0], want)
                     if res is not True and res != 1:
-                        part.violation(f'{pid}:{name}' + (f':{res}' if isinstance(res, str) else ''),
+                        part.violation(_vkey(pid, name, res),
                                        f'[{cfg}] {name}{vals} = {gots[0]!r}, reference gives {want!r} (masks {pat})',
                                        dict(engine='mp', job=job, lo=lo, pat=pat, idx=idx))
                 if len(part.samples) < 1 and op.arity == 2 and idx == 3:
